@@ -153,11 +153,12 @@ class Runner:
         self.retained = []  # objects handed out by the getters of the last committed transaction
 
     def _on_transaction(self, result):
-        self.fired += 1
         if result is None:
             return
         objs = list(result.descr_updated) + list(result.descr_created) + list(result.descr_deleted) + list(
             result.all_states())
+        if objs:
+            self.fired += 1  # (an empty result makes no report)
         for o in objs:
             self.published.append([o, C.canon(o), f'{type(o).__name__}:{getattr(o, "Handle", None) or o.DescriptorHandle}'])
 
